@@ -143,7 +143,29 @@ _KW_FLOORS_QUICK = {
     "kw_tree:value_counts:normalize": 52, "kw_tree:value_counts:sort": 42, "kw_tree:var:ddof": 18,
     "kw_tree:var:numeric_only": 10, "kw_tree:var:skipna": 56,
 }
-_KW_FLOORS_THOROUGH = {}
+_KW_FLOORS_THOROUGH = {      # ~40 % of thorough seed 0
+    "kw_rowwise:all:axis": 46, "kw_rowwise:any:axis": 43, "kw_rowwise:count:axis": 62,
+    "kw_rowwise:idxmax:axis": 45, "kw_rowwise:idxmin:axis": 43, "kw_rowwise:max:axis": 55,
+    "kw_rowwise:mean:axis": 55, "kw_rowwise:min:axis": 58, "kw_rowwise:nunique:axis": 70,
+    "kw_rowwise:prod:axis": 53, "kw_rowwise:sem:axis": 53, "kw_rowwise:std:axis": 45,
+    "kw_rowwise:sum:axis": 70, "kw_rowwise:var:axis": 61, "kw_shuffle:nunique:dropna": 191,
+    "kw_shuffle:value_counts:ascending": 157, "kw_shuffle:value_counts:dropna": 203,
+    "kw_shuffle:value_counts:normalize": 222, "kw_shuffle:value_counts:sort": 126,
+    "kw_tree:all:skipna": 10, "kw_tree:any:skipna": 45, "kw_tree:corr:numeric_only": 44,
+    "kw_tree:count:numeric_only": 54, "kw_tree:cov:numeric_only": 39,
+    "kw_tree:idxmax:numeric_only": 37, "kw_tree:idxmin:numeric_only": 37,
+    "kw_tree:max:numeric_only": 56, "kw_tree:max:skipna": 241, "kw_tree:mean:numeric_only": 70,
+    "kw_tree:mean:skipna": 224, "kw_tree:min:numeric_only": 56, "kw_tree:min:skipna": 234,
+    "kw_tree:mode:dropna": 153, "kw_tree:mode:numeric_only": 122, "kw_tree:nlargest:n": 445,
+    "kw_tree:nsmallest:n": 449, "kw_tree:nunique:dropna": 116, "kw_tree:prod:min_count": 40,
+    "kw_tree:prod:numeric_only": 57, "kw_tree:prod:skipna": 214, "kw_tree:sem:ddof": 107,
+    "kw_tree:sem:numeric_only": 58, "kw_tree:sem:skipna": 246, "kw_tree:std:ddof": 104,
+    "kw_tree:std:numeric_only": 60, "kw_tree:std:skipna": 234, "kw_tree:sum:min_count": 47,
+    "kw_tree:sum:numeric_only": 62, "kw_tree:sum:skipna": 223, "kw_tree:value_counts:ascending": 192,
+    "kw_tree:value_counts:dropna": 238, "kw_tree:value_counts:normalize": 324,
+    "kw_tree:value_counts:sort": 295, "kw_tree:var:ddof": 106, "kw_tree:var:numeric_only": 63,
+    "kw_tree:var:skipna": 243,
+}
 FLOORS = {
     "quick": {"evaluations": 4000, "distinct_nontrivial": 3400, "max_skipped_fraction": 0.3,
               "counters": {"compared": 3700, "dtype_facet_checked": 3700, "empty_part": 870, "allna_part": 1100,
@@ -151,11 +173,12 @@ FLOORS = {
                            "multi_level_tree_cases": 2100, "shuffle_path_cases": 225, **_KW_FLOORS_QUICK},
               "sets": {"op_options": 710, "partition_shapes": 1400, "multi_level_tree_ops": 38, "tree_configs": 82,
                        "nondefault_kw": 170}},
-    "thorough": {"evaluations": 24000, "distinct_nontrivial": 19000, "max_skipped_fraction": 0.3,
-                 "counters": {"compared": 23000, "dtype_facet_checked": 22000, "empty_part": 6800, "allna_part": 4300,
-                              "single_row_part": 10000, "skipna_false": 4200, "tree": 8800, "axis1": 1700,
-                              **_KW_FLOORS_THOROUGH},
-                 "sets": {"op_options": 1300, "partition_shapes": 4600}},
+    "thorough": {"evaluations": 30000, "distinct_nontrivial": 25000, "max_skipped_fraction": 0.3,
+                 "counters": {"compared": 28900, "dtype_facet_checked": 28500, "empty_part": 7400, "allna_part": 5700,
+                              "single_row_part": 13800, "skipna_false": 5100, "tree": 12900, "axis1": 2000,
+                              "multi_level_tree_cases": 12000, "shuffle_path_cases": 1800, **_KW_FLOORS_THOROUGH},
+                 "sets": {"op_options": 1600, "partition_shapes": 8900, "multi_level_tree_ops": 38, "tree_configs": 85,
+                          "nondefault_kw": 200}},
 }
 EXHAUSTIVE_SPACE = {
     "quick": ("fixed 6-row frame: all 32 compositions into non-empty consecutive partitions + all weak compositions "
@@ -228,7 +251,8 @@ PENDING = {
     'cov/corr:datetime-column:raises':
         'DataFrame.corr(numeric_only=True) raises TypeError for a frame holding a datetime column (pandas drops it and answers)',
     'nunique:signed-zero&multi-partition:values':
-        'nunique counts -0.0 and +0.0 as two values when the data is spread over several partitions',
+        'nunique counts -0.0 and +0.0 as two values when the data is spread over several partitions (hash shuffle of the '
+        'split_out path; value_counts() and unique() with split_out != 1 list both zeros for the same reason)',
     'value_counts:categorical-column&split_out>1:length':
         'Series.value_counts(split_out=True|2) of a categorical column repeats categories with count 0: an empty disk-shuffle '
         'output partition is handed the non-empty chunk meta (fix offered: fixes_ready/C37_04)',
@@ -1105,6 +1129,10 @@ def _canonical(fam, feats, sym, cur):
             if f.startswith(("dropna=", "sort=", "normalize=", "ascending=", "split_out", "tree-path")) and f not in extra:
                 extra.append(f)
         return "%s:%s:%s" % (f2, "&".join(["+".join(sorted(classes)) + "-column"] + extra), symclass)
+    if "signed-zero" in F and fam in ("nunique", "value_counts", "unique") and "multi-partition" in F:
+        # R10: the hash shuffle of the split_out path sends -0.0 and +0.0 to different output partitions; nunique,
+        # value_counts() and unique() all go through it: one mechanism, one label (the one first found, for nunique)
+        return "nunique:signed-zero&multi-partition:values"
     if fam == "value_counts" and "split_every-tree" in F:
         # a failure of the intermediate combine level: which partition fed it (empty / all-NA / any) is a trigger variant
         feats = [f for f in feats if f not in ("multi-partition", "all-NA-partition", "empty-partition")]
